@@ -214,16 +214,22 @@ def canon_constructions(chk, cfg):
                 packs += [t for t in walk(v) if C08.is_pack(t) is not None]
             for t in packs:
                 x = C08.is_pack(t)
-                ok, why = extent_ok(p, x)
+                ok, why = extent_ok(p, x, b)
                 chk.ob("I-canon", b["path"], ok, "packs %s into a k-mer: %s" % (show(x)[:100], why), b["span"], kind="non-canonical",
                        sample={"ctor": b["path"], "packs": show(x)[:100]})
     return n
 
 
-def extent_ok(p, x):
+def extent_ok(p, x, body=None):
     KB = canon(mul(K, BITS))
     if x[0] == "bits" and x[1][0] == "seqview":
         x = ("bits", x[1][1])
+    if body is not None and x[0] == "bits" and isinstance(x[1], tuple) and x[1][0] == "P":
+        # a SeqArray<A, K, W> argument has exactly K symbols by its type: SeqArray::deref is [0, N*BITS) (row R15 of C03)
+        i = x[1][1]
+        ty = body["locals"][i]["ty"] if i < len(body["locals"]) else ""
+        if re.match(r"^&*(\w+ )?seq::array::SeqArray<A, K, \w+>$", an._strip_lt(ty).replace("&'_ ", "&")):
+            return True, "a SeqArray<A, K, W>: K symbols by type (C03 R15)"
     if x[0] == "bslice" and x[2] == canon(c(0)) and x[3] == KB:
         return True, "extent [0, K*BITS)"
     if x[0] == "bits":
